@@ -3,7 +3,7 @@
    shared capacity sh by any sequence of labels (calls, grants, refusals, expiries, time). *)
 From Coq Require Import List ZArith Bool Lia.
 From RecordUpdate Require Import RecordUpdate.
-From GB Require Import Model.Allowance Model.Batcher Model.Shared Proofs.Tactics Proofs.SharedInv.
+From GB Require Import Model.Allowance Model.Batcher Model.Shared Model.Lease Proofs.Tactics Proofs.SharedInv.
 From GB Require Import Gen.Facts Proofs.FactsChecks.
 Import ListNotations.
 Open Scope Z_scope.
@@ -101,11 +101,15 @@ Theorem C06_v1_refuses_more_than_500 : forall c s a b s' o,
 Proof. exact provision_refused_v1. Qed.
 Print Assumptions C06_v1_refuses_more_than_500.
 
-(* v1's ProvisionedResource reports its one configured value from both getters (two-line model) *)
-Definition provisioned_capacity (maxcap : Z) : Z := maxcap.
-Definition provisioned_max_capacity (maxcap : Z) : Z := maxcap.
-Theorem C06_provisioned_resource : forall m, provisioned_capacity m = provisioned_max_capacity m.
-Proof. reflexivity. Qed.
+(* v1's ProvisionedResource (Model/Lease.v, prov_*; compared with the real type on every run: cases "provres" of
+   the lease history): both getters return the configured value whatever has been called before, Start raises one
+   capacity event carrying it, Stop one shutdown event, Provision and GiveMe are no-ops *)
+Theorem C06_provisioned_resource : forall m,
+  prov_capacity m = m /\ prov_max_capacity m = m
+  /\ prov_step m POStart = [PECapacity m] /\ prov_step m POStop = [PEShutdown]
+  /\ prov_step m POProvision = [] /\ prov_step m POGiveMe = [].
+Proof. intro m. repeat split; reflexivity. Qed.
+Print Assumptions C06_provisioned_resource.
 
 (* tie to the source: calc() counts the table and stores the result under the partition lock in both generations
    (facts regenerated from the Go sources on every run), which is what makes the model's atomic calc faithful *)
